@@ -34,6 +34,16 @@ FS_FAULTS = {
     "percent-symlink-loop": "100%",
 }
 NAME_PREFIXES = ("dot-", "percent-", "format-", "glob-")
+# unservable objects named like the sidecar of a healthy sibling (or of a healthy sub-directory): describing
+# the sibling must survive them.  kind -> (what it is, sidecar extension)
+SIDECAR_FAULTS = {"sidecar-socket": ("socket", ".abstract"), "sidecar-dir": ("dir", ".ask"), "sidecar-fifo": ("fifo", ".3d"),
+                  "sidecar-loop": ("symlink-loop", ".keywords"), "dirsidecar-socket": ("socket", "/.abstract"),
+                  "dirsidecar-dir": ("dir", "/.3d"),
+                  # the same for the UMN per-file metadata file .cap/<name>
+                  "capfile-fifo": ("fifo", "cap:"), "capfile-socket": ("socket", "cap:"), "capfile-dir": ("dir", "cap:"),
+                  "capfile-loop": ("symlink-loop", "cap:")}
+# names that one of the handlers claims by pattern: appended to the faulty entry's name
+SUFFIXES = ["", ".gophermap", ".zip", ".mbox", ".pyg", ".html", ".html.tal", ".txt.gz"]
 INJECTED = ["vanished-after-enumeration", "stat-ENOENT", "stat-EACCES"]
 HEALTHY = ["alpha.txt", "beta.html", "gamma", "delta.gif", "epsilon.txt", "zeta", "eta.txt", "theta.pdf"]
 
@@ -50,11 +60,29 @@ def healthy_tree(names: typing.List[str]) -> Tree:
     return t
 
 
-def add_fault(t: Tree, kind: str, pos_name: str) -> str:
+def add_fault(t: Tree, kind: str, pos_name: str, suffix: str = "", healthy: typing.Sequence[str] = ()) -> str:
     """Adds the faulty entry; returns its file name. pos_name steers its sort position."""
-    name = pos_name + FS_FAULTS[kind]
+    if kind in SIDECAR_FAULTS:
+        what, ext = SIDECAR_FAULTS[kind]
+        if ext.startswith("/"):
+            owner = next((h for h in healthy if h in ("gamma", "zeta")), None)
+        else:
+            owner = next((h for h in healthy if h not in ("gamma", "zeta")), None)
+        if owner is None:
+            owner, ext = "alpha.txt", ext.lstrip("/") if not ext.startswith("/.") else ".abstract"
+        name = owner + ext
+        if ext == "cap:":
+            name = ".cap/" + owner
+        if what == "dir":
+            t.file(name + "/inside.txt", "x\n")
+        elif what == "symlink-loop":
+            t.symlink(name, os.path.basename(name))
+        else:
+            t.special(name, what)
+        return name
+    name = pos_name + FS_FAULTS[kind] + suffix
     if kind.startswith("dot-"):
-        name = FS_FAULTS[kind] + pos_name     # must keep its leading dot
+        name = FS_FAULTS[kind] + pos_name + suffix     # must keep its leading dot
     for pre in NAME_PREFIXES:
         if kind.startswith(pre):
             kind = kind[len(pre):]
@@ -125,15 +153,16 @@ def run_case(chk: Check, sc: Scratch, idx: int, handlers, hl_name: str, nhealthy
     inj = Injector()
     faulty_names = []
     dfs = os.path.join(os.fsencode(root), depth).rstrip(b"/")
+    suffix = SUFFIXES[idx % len(SUFFIXES)]
     for kind, pos in faults:
-        if kind in FS_FAULTS:
-            faulty_names.append(add_fault(t, kind, pos))
+        if kind in FS_FAULTS or kind in SIDECAR_FAULTS:
+            faulty_names.append(add_fault(t, kind, pos, suffix, healthy))
         elif kind == "vanished-after-enumeration":
-            n = pos + "phantom.txt"
+            n = pos + "phantom" + (suffix or ".txt")
             inj.phantoms.setdefault(dfs, []).append(n.encode())
             faulty_names.append(n)
         else:
-            n = pos + "unstatable.txt"
+            n = pos + "unstatable" + (suffix or ".txt")
             t.file(n, "cannot be inspected\n")
             inj.stat_errors[os.path.join(dfs, n.encode())] = errno.ENOENT if kind == "stat-ENOENT" else errno.EACCES
             faulty_names.append(n)
@@ -168,7 +197,8 @@ def run_case(chk: Check, sc: Scratch, idx: int, handlers, hl_name: str, nhealthy
     site = driver.Site(root, handlers=handlers)
     inj.install()
     try:
-        kinds = "+".join(sorted(k for k, _ in faults)) + ("+linkfile-" + linkmode if linkmode else "")
+        kinds = "+".join(sorted(k for k, _ in faults)) + ("+linkfile-" + linkmode if linkmode else "") + \
+            ("+named" + suffix if suffix else "")
         for view in VIEWS:
             ents, resp, v = listing_entries(chk, site, view, sel)
             sample = {"handler": hl_name, "dir": sel, "faults": faults, "healthy": healthy, "view": view,
@@ -200,11 +230,11 @@ def run_case(chk: Check, sc: Scratch, idx: int, handlers, hl_name: str, nhealthy
 def main() -> int:
     chk = Check("C12", "fault_enumeration")
     quick = chk.tier == "quick"
-    kinds = list(FS_FAULTS) + INJECTED
+    kinds = list(FS_FAULTS) + INJECTED + list(SIDECAR_FAULTS)
     positions = ["", "c", "m", "zz"]      # sorts first, early, middle, last among the healthy names
     idx = 0
     with Scratch("c12") as sc:
-        for hl_name, hl in (("umn", None), ("plain", driver.HANDLERS_PLAINDIR)):
+        for hl_name, hl in (("umn", None), ("plain", driver.HANDLERS_PLAINDIR), ("full", driver.HANDLERS_FULL)):
             # singles: every fault kind x every position x directory sizes
             for kind in kinds:
                 for pos in positions:
@@ -233,7 +263,9 @@ def main() -> int:
              "vanishes between enumeration and inspection (interposed os.listdir), stat failing with ENOENT/EACCES "
              "(interposed os.stat), and the file-system kinds again under names containing %-format, str.format, "
              "shell and glob syntax; singles at 4 positions, and pairs; under the UMN handler also with a link file "
-             "in the directory whose stanzas (hide / rename / number) name the faulty entries",
+             "in the directory whose stanzas (hide / rename / number) name the faulty entries; faulty names carry the "
+             "suffixes handlers match by pattern (.gophermap .zip .mbox .pyg .html .html.tal .txt.gz); unservable "
+             "objects named like a healthy sibling's (or sub-directory's) sidecar; three handler lists",
         assumptions=["faults are injected by interposing os.listdir/os.stat in the harness process (hit counter checked)"],
         exhaustive=True)
 
